@@ -153,16 +153,27 @@ static void homogeneous(const std::string& what, const std::vector<Item>& items)
    const ipr::Scope* scope = nullptr;
    const ipr::Region* region = nullptr;
    std::vector<std::string> pos;
+   // "is it declared? no -> declare it -> use it": the name is looked up right before and right after each declaration
+   std::string before_after;
+   auto probe = [&](const ipr::Scope& sc, const ipr::Name& n) { before_after += sc[n].is_valid() ? '1' : '0'; };
    if (what == "param") {
       auto* m = w.lex.make_mapping(greg, Mapping_level{ 2 });
-      for (auto& it : items) made.push_back(m->param(*w.names.at(it.name), *w.plain.at(it.type)));
+      for (auto& it : items) {
+         probe(m->parameters().region().bindings(), *w.names.at(it.name));
+         made.push_back(m->param(*w.names.at(it.name), *w.plain.at(it.type)));
+         probe(m->parameters().region().bindings(), *w.names.at(it.name));
+      }
       scope = &m->parameters().region().bindings();
       region = &m->parameters().region();
       for (auto& p : m->parameters().elements()) pos.push_back(std::to_string(size_t(p.position())));
    }
    else if (what == "enum") {
       auto* e = w.lex.make_enum(greg, ipr::Enum::Kind::Legacy);
-      for (auto& it : items) made.push_back(e->add_member(*w.names.at(it.name)));
+      for (auto& it : items) {
+         probe(e->region().bindings(), *w.names.at(it.name));
+         made.push_back(e->add_member(*w.names.at(it.name)));
+         probe(e->region().bindings(), *w.names.at(it.name));
+      }
       scope = &e->region().bindings();
       region = &e->region();
       for (auto& p : e->members()) pos.push_back(std::to_string(size_t(p.position())));
@@ -199,9 +210,9 @@ static void homogeneous(const std::string& what, const std::vector<Item>& items)
          return sel.is_valid() ? index_of(sel.get()) : std::string("notype");
       }));
    }
-   std::printf("elements=%s types=%s size=%zu pos=%s master=%s declset=%s home=%s byname=%s\n",
+   std::printf("elements=%s types=%s size=%zu pos=%s master=%s declset=%s home=%s byname=%s probes=%s\n",
                join(elems).c_str(), join(types).c_str(), size_t(scope->size()), join(pos).c_str(), join(masters).c_str(),
-               join(declsets).c_str(), join(homes, "").c_str(), join(byname).c_str());
+               join(declsets).c_str(), join(homes, "").c_str(), join(byname).c_str(), before_after.empty() ? "-" : before_after.c_str());
 }
 
 int main()
